@@ -83,6 +83,7 @@ func surm(rainfall, pet data.ND1Float64,
 		quickflow += perviousQuickflow
 
 		et := math.Max(math.Min(10*soilMoistureStore/smax, petThisTS), 0.0) //* fperv
+		et = math.Min(et, soilMoistureStore) // cannot evaporate more than the store holds (smax < 10)
 		soilMoistureStore -= et
 
 		recharge := rfac * math.Max(soilMoistureStore-fieldCapacity, 0.0) //* fperv
